@@ -1,6 +1,7 @@
 import AvoVerif.Drv.Common
 import AvoVerif.Model.Live
-import AvoVerif.Model.UseDef
+import AvoVerif.Model.UseDefCheck
+import AvoVerif.Model.LiveCheck
 namespace Avo.Drv.C02
 open Avo.Drv Avo.Reg Avo.MaskSet Avo.Live Avo.UseDef
 
@@ -33,15 +34,22 @@ def wf (P : LProg) : Bool :=
 /-! Third opinion: the path specification computed directly, one location at a
 time, by backward closure from the reads (not the algorithm under test). -/
 
+/-- Iterate `step` until nothing changes (at most `fuel` times). -/
+def closeLoop (step : Array Bool → Array Bool) : Nat → Array Bool → Array Bool
+  | 0, a => a
+  | k + 1, a => let b := step a; if b == a then a else closeLoop step k b
+
 def specLiveIn (P : LProg) (id lane : Nat) : Array Bool :=
   let n := P.size
   let use (i : Nat) : Bool := (P.getD i default).uses.any (fun r => r.id == id && r.mask.testBit lane)
   let dfn (i : Nat) : Bool := (P.getD i default).defs.any (fun r => r.id == id && r.mask.testBit lane)
   let init : Array Bool := (Array.range n).map use
+  let dfnA : Array Bool := (Array.range n).map dfn
   let step (a : Array Bool) : Array Bool :=
     (Array.range n).map (fun i => a.getD i false ||
-      (!dfn i && (P.getD i default).succ.any (fun s => match s with | none => false | some s => a.getD s false)))
-  (List.range (n + 1)).foldl (fun a _ => step a) init
+      (!dfnA.getD i false && (P.getD i default).succ.any (fun s => match s with | none => false | some s => a.getD s false)))
+  -- a fact travels along a path of at most n instructions: n + 1 rounds always suffice
+  closeLoop step (n + 1) init
 
 def specLiveOut (P : LProg) (inA : Array Bool) (i : Nat) : Bool :=
   (P.getD i default).succ.any (fun s => match s with | none => false | some s => inA.getD s false)
@@ -49,12 +57,19 @@ def specLiveOut (P : LProg) (inA : Array Bool) (i : Nat) : Bool :=
 def allIds (P : LProg) (extra : List MS) : List Nat :=
   ((P.toList.flatMap (fun I => (I.uses ++ I.defs).map (·.id))) ++ extra.flatMap (fun s => s.map (·.1))).eraseDups
 
+/-- Union of all masks mentioned for `id` anywhere (program or reported sets): lanes outside it are dead and
+reported dead everywhere. -/
+def idMask (P : LProg) (extra : List MS) (id : Nat) : Nat :=
+  let a := P.toList.foldl (fun acc I => (I.uses ++ I.defs).foldl (fun acc r => if r.id == id then acc ||| r.mask else acc) acc) 0
+  extra.foldl (fun acc s => acc ||| MaskSet.get s id) a
+
 /-- Check reported live sets against the path specification for every register
-appearing anywhere and every lane 0..15. Returns the first discrepancy. -/
+appearing anywhere and every lane mentioned for it. Returns the first discrepancy. -/
 def checkSpec (P : LProg) (ins outs : List MS) : Option String :=
   let ids := allIds P (ins ++ outs)
-  let lanes := List.range 16
-  ids.findSome? (fun id => lanes.findSome? (fun lane =>
+  ids.findSome? (fun id =>
+    let m := idMask P (ins ++ outs) id
+    ((List.range 16).filter (fun l => m.testBit l)).findSome? (fun lane =>
     let a := specLiveIn P id lane
     (List.range P.size).findSome? (fun i =>
       let gotIn := mem (ins.getD i []) id lane
@@ -100,10 +115,15 @@ def handle : Handler
           let (b, ts) ← msTok ts
           go k ts (a :: ins) (b :: outs)
       let (ins, outs) ← go P.size rest [] []
-      if !wf P then some "bad-succ" else
-      some (match checkSpec P ins outs with
-        | none => "ok"
-        | some d => "bad-live " ++ d)
+      if !wfb P then some "bad-succ" else
+      -- the verdict is `acceptLive` (theorem `acceptLive_sound_checked`: equivalent to the path specification at every
+      -- instruction, register and lane); `checkSpec`, a direct backward-closure evaluation of the specification that
+      -- shares nothing with the model of the algorithm, must agree and names the first discrepancy
+      some (match acceptLive P ins outs, checkSpec P ins outs with
+        | true, none => "ok"
+        | true, some d => "bad-closure-disagrees " ++ d
+        | false, some d => "bad-live " ++ d
+        | false, none => "bad-live closure-disagrees")
     | _ => some "bad-impl-outcome"
   | "usedef" :: c :: rest => do
     let (ops, _) ← listOf opndTok rest
@@ -116,7 +136,9 @@ def handle : Handler
       let (ro, _) ← msTok rest
       let wantI := regSet (specReads (c == "1") ops)
       let wantO := regSet (specWrites ops)
-      -- the property demands that every specified read/write is reported (lane-wise)
+      -- the verdict is `acceptUseDef` (theorem `acceptUseDef_sound`: lane-wise equality with the specification);
+      -- the text after `bad-` only names a first discrepancy for the report
+      if acceptUseDef (c == "1") ops ri ro then some "ok" else
       let missing (want got : MS) : Option String :=
         (canon want).findSome? (fun p => if MaskSet.get got p.1 &&& p.2 == p.2 then none else some s!"id={p.1} mask={p.2}")
       let extra (want got : MS) : Option String :=
@@ -126,7 +148,7 @@ def handle : Handler
         | _, some d, _, _ => "bad-missing-write " ++ d
         | _, _, some d, _ => "bad-extra-read " ++ d
         | _, _, _, some d => "bad-extra-write " ++ d
-        | _, _, _, _ => "ok")
+        | _, _, _, _ => "bad-usedef")
     | _ => none
   | _ => none
 
